@@ -471,13 +471,13 @@ impl Space for Families {
         let mut prev: Option<(usize, f64)> = None;
         for &n in &f.sizes {
             let text = (f.make)(n);
-            let t0 = Instant::now();
+            let t0 = crate::engine::CpuWatch::start();
             sink.count("states", 1);
             sink.count("transitions", 1);
             // announce the member about to run so that an abort names it
             sink.heartbeat(idx);
             let r = pipeline(&text);
-            let dt = t0.elapsed().as_secs_f64();
+            let dt = t0.seconds();
             match r {
                 Ok(c) => {
                     sink.count("validated", 1);
@@ -499,21 +499,28 @@ impl Space for Families {
                 let (pn, pt) = prev.unwrap_or((0, 0.0));
                 // polynomial growth up to cubic gives at most 8x per doubling; additive steps of 2
                 // in an exponential family give 4x per step.  Report only super-polynomial evidence:
-                // the member is over the cap while its predecessor was >= 3x faster for a +2 step,
-                // or >= 16x faster for a doubling.
+                // the member is over the cap while its predecessor was >= 2.5x faster for a +2 step,
+                // or >= 16x faster for a doubling -- and only if that reproduces.
                 let step_family = f.sizes.len() > 1 && f.sizes[1] - f.sizes[0] == 2 && f.sizes[0] == 2;
-                let ratio = if pt > 0.0 { dt / pt } else { f64::INFINITY };
-                let blowup = if step_family { ratio >= 2.5 } else { ratio >= 16.0 };
-                if blowup {
-                    sink.finding(Finding {
+                let is_blowup = |dt: f64, pt: f64| {
+                    let ratio = if pt > 0.0 { dt / pt } else { f64::INFINITY };
+                    if step_family { ratio >= 2.5 } else { ratio >= 16.0 }
+                };
+                let time = |size: usize| {
+                    let text = (f.make)(size);
+                    let t0 = crate::engine::CpuWatch::start();
+                    let _ = pipeline(&text);
+                    t0.seconds()
+                };
+                match crate::engine::confirm_blowup(dt, pt, self.soft_cap, is_blowup, || time(n), || if pn > 0 { time(pn) } else { 0.0 }) {
+                    Some((dt, pt)) => sink.finding(Finding {
                         sig: format!("blow-up/family={}", f.name),
                         what: format!("time blow-up on hostile shape {}", f.name),
                         case: format!("family {} size {}\n{}", f.name, n, crate::engine::sink::truncate(&text, 400)),
                         expected: format!("time polynomial in the input length (soft cap {} s)", self.soft_cap),
-                        observed: format!("size {} took {:.3} s; size {} took {:.6} s (x{:.1})", n, dt, pn, pt, ratio),
-                    });
-                } else {
-                    sink.note("family-capped", &format!("{}@{} {:.2}s (previous {}: {:.2}s)", f.name, n, dt, pn, pt));
+                        observed: format!("size {} took {:.3} s; size {} took {:.6} s (x{:.1}; cheapest of three runs against the dearest)", n, dt, pn, pt, if pt > 0.0 { dt / pt } else { f64::INFINITY }),
+                    }),
+                    None => sink.note("family-capped", &format!("{}@{} {:.2}s (previous {}: {:.2}s)", f.name, n, dt, pn, pt)),
                 }
                 return;
             }
